@@ -100,6 +100,21 @@ pub fn fuses(a: char, b: char) -> bool {
         || (a == '>' && b == '=')
 }
 
+// ---------------------------------------------------------------- O-esc
+/// Bytes that can NOT stand for themselves, raw, inside a quoted Lua/Luau string literal that
+/// darklua builds as a Rust `String`: backslash (starts an escape), newline and carriage return
+/// (unfinished string), and every byte >= 0x80 (a lone such byte cannot be put into a `String`;
+/// `byte as char` would be re-encoded as two bytes).  The quote character is handled by the
+/// caller.  Other control bytes are legal raw, so they are deliberately not required.
+pub fn must_escape_in_quotes(c: u8) -> bool {
+    c == b'\\' || c == b'\n' || c == b'\r' || c >= 0x80
+}
+/// Bytes that can not be written raw inside a long bracket: carriage return (the lexer
+/// normalises \r and \r\n to \n, so the value would change).
+pub fn not_raw_in_long_bracket(c: u8) -> bool {
+    c == b'\r'
+}
+
 // ---------------------------------------------------------------- O-line
 pub fn count_nl(bytes: &[u8]) -> usize {
     let mut n = 0usize;
